@@ -14,7 +14,8 @@ CHECKS = {
              "intended procedure for versions 4..14 and that lost keys / late counters are caught. The real write_network_info + "
              "load_network_info(load_devices=True) run for every version 4..14 x NCP capability against the simulated NCP store with "
              "generated settings (12 quick / 300 thorough per version); TLC judges each run (Trace_NetInfo)."
-             " Children may carry reserved network addresses; after the round trip the child in the lowest slot leaves and the settings are read again (ReadMatchesStore).",
+             " Children may carry reserved network addresses; after the round trip the child in the lowest slot leaves and the settings are read again (ReadMatchesStore)."
+             " The NCP may start off-network but still holding link keys of an earlier network.",
         design_ref="3/C14",
         note="Trusted: compat shim, simulated NCP store (ncp_netinfo.py) answering ~30 commands in every version's result shapes. From "
              "version 5 on only the well-known link key round-trips (stated limitation of bellows). One defect found and fixed (v14 "
@@ -34,7 +35,8 @@ CHECKS = {
              "the proxy attribute was looked up is a free parameter of the model (it has no influence): bound wrappers fetched on one loop and "
              "invoked from the other are part of every scenario family."
              " Owner-loop states: running, open but not started yet (the calls are queued and run once it starts), closed; owner either a plain thread or bellows' EventLoopThread (start / force_stop with calls in flight)."
-             " What the owner's loop reports for a queued plain call is part of the model (a call handing back any value - also 0 / False / empty - is reported as a TypeError); kinds include plain methods returning falsy values and a plain function wrapping a coroutine function.",
+             " What the owner's loop reports for a queued plain call is part of the model (a call handing back any value - also 0 / False / empty - is reported as a TypeError); kinds include plain methods returning falsy values and a plain function wrapping a coroutine function."
+             " Kinds include instance attributes shadowing class methods of the other kind.",
         design_ref="3/C20",
         note="Real OS threads: schedules are sampled, not enumerated; the verdict depends only on per-thread order, never on wall-clock "
              "order across threads (generous wall-clock limits only detect blocking). A stopped-but-not-closed loop is outside the property.",
@@ -53,7 +55,8 @@ CHECKS = {
              "prefix of every event order, then late frames and a further scan), plus repeated operations; TLC validates outcome, "
              "exact timeout instant, scan results and that listener / callback bookkeeping is back to its prior size after every operation."
              " Every refusal status of the command's status family is used in turn for scan / form / leave, followed by another operation's events."
-             " spec/StatusWaiters.tla models the listener registry under several waiters at once (also waiters that stay inside their block after their event): model-checked (NoMiss, NoSpurious) and bound to 2..3 concurrent wait_for_stack_status blocks of the real EZSP in every order of events, cancellations and timeouts.",
+             " spec/StatusWaiters.tla models the listener registry under several waiters at once (also waiters that stay inside their block after their event): model-checked (NoMiss, NoSpurious) and bound to 2..3 concurrent wait_for_stack_status blocks of the real EZSP in every order of events, cancellations and timeouts."
+             " spec/CbRegistry.tla: the callback registry under every short order of registrations, removals and frames (an id handed out is never the id of a registration in force; fan-out to exactly the registrations in force).",
         design_ref="3/C17",
         note="Trusted: compat shim (bring-up), fake gateway + NcpEzsp encoder, virtual time. Residue is read from EZSP._stack_status_listeners "
              "and EZSP._callbacks (the bookkeeping the property names). A scan has no timeout of its own in the code and none is claimed.",
@@ -69,7 +72,8 @@ CHECKS = {
              "types, payload lengths 0..100, RSSI extremes; all status x decision combinations) in the version's field order and header "
              "layout and feeds them through EZSP.frame_received into the real ControllerApplication; TLC judges what zigpy received."
              " Defined message types make up half of the generated callbacks; earlier callbacks are repeated (identical, or sharing sender and APS sequence) between other traffic: every callback yields its own packet."
-             " The same callbacks are also fed to applications brought up by their own connect() / start_network() - first, second and third connection of one application object - and NCP versions 15 / 16 are included.",
+             " The same callbacks are also fed to applications brought up by their own connect() / start_network() - first, second and third connection of one application object - and NCP versions 15 / 16 are included."
+             " The node's own address changes during the runs.",
         design_ref="3/C13",
         note="Input-quantified mapping; the TLA+ text is the independent reference and TLC the evaluator. Trusted: compat shim, the "
              "harness's encoder (frame IDs, field orders and enum codes pinned from the EZSP reference), instance-level wrappers of "
@@ -87,7 +91,8 @@ CHECKS = {
              "ControllerApplication.send_packet runs over the real EZSP for versions 4..14 against the simulated NCP: unicasts (plain, "
              "source route, extended timeout, IEEE-addressed) x 6 enqueue-status sequences x 10 confirmation patterns, concurrent and "
              "staggered mixes with multicast / broadcast and unsolicited confirmations, random mixes; TLC validates each run."
-             " NCP versions 15 and 16 (newest known tables) are included.",
+             " NCP versions 15 and 16 (newest known tables) are included."
+             " With an NCP that takes 10 ms over every set-up command the caller is cancelled between two set-up commands while other requests wait for the lock: a block ends with its request, and set-up commands are only accepted on behalf of a request in progress.",
         design_ref="3/C12",
         note="Trusted: zigpy.util.Requests shim (compat.py), simulated EZSP NCP (enqueue answers; messageSentHandler in the version's "
              "field order), virtual time. RETRY_DELAYS and APS_ACK_TIMEOUT read from the tree (configuration).",
@@ -128,7 +133,8 @@ CHECKS = {
              "unread x line-fault schedules x NCP windows 1..3 through startup_reset, write_config, a second reset, version and a "
              "command; TLC validates the frames seen by the NCP's EZSP layer and every stage outcome (Trace_Bringup)."
              " Besides raw commands, composite operations of the version's protocol handler (read_counters, read_and_clear_counters) are issued after bring-up and again after a later reset + negotiation (every frame for that version, also through previously used entry points)."
-             " socket:// runs also have the start-up reset announced before anybody waits; every run contains a second, application-style start-up (stop, startup_reset, write_config) before or after the explicit reset, and Trace_Bringup requires every start-up / reset to have performed the reset handshake.",
+             " socket:// runs also have the start-up reset announced before anybody waits; every run contains a second, application-style start-up (stop, startup_reset, write_config) before or after the explicit reset, and Trace_Bringup requires every start-up / reset to have performed the reset handshake."
+             " A serial NCP may miss the first RST altogether (that start-up ends in the reset timeout; the retry on the same object must perform the handshake).",
         design_ref="3/C09",
         note="Trusted: simulated ASH NCP (validated against AshNcp.tla in C01) and EZSP NCP; faults hit DATA/ACK/NAK only (bellows does not "
              "retransmit RST). One defect fixed (KeyError for version >= 15); one known finding listed in known_findings.json (start-up "
@@ -145,7 +151,8 @@ CHECKS = {
              "leaving the counters anywhere in 0..7, followed by a send and a DATA frame numbered 0, with the connection lost before every "
              "step (error, clean close, EOF) or queued right behind every read; TLC validates each run against Trace_Gateway "
              "(CANCEL-prefixed RST, outcome and exact time of reset()/wait_for_startup_reset(), application notices, numbering on the wire)."
-             " Arrival patterns include a DATA frame in flight when the reset is requested (its acknowledgement and the RSTACK in one read / two reads).",
+             " Arrival patterns include a DATA frame in flight when the reset is requested (its acknowledgement and the RSTACK in one read / two reads)."
+             " A second reset is requested shortly before the instant at which the first (answered) one would have timed out, its answer arriving shortly after that instant.",
         design_ref="3/C11",
         note="Trusted: fake serial transport (close() reports connection_lost(None) from the loop), virtual time, ashref.py. A caller that "
              "joins a reset in progress may see a cancellation instead of the timeout (latitude; the code logs such a request as an error). "
@@ -244,7 +251,8 @@ CHECKS = {
              "successful feeds, incl. a failing free-buffer read) and sequences through zigpy's watchdog loop are executed on the real "
              "ControllerApplication._watchdog_feed (real EZSP, simulated NCP, virtual time) and validated by TLC against Trace_Watchdog "
              "(raise/return, exception class, keep-alive command seen by the NCP, connection_lost iff raised)."
-             " Restart-length failure runs are started 7..0 feeds before the first and the second periodic read-and-clear feed.",
+             " Restart-length failure runs are started 7..0 feeds before the first and the second periodic read-and-clear feed."
+             " Counter reads may carry fewer or more values than the host has counter types (1 / 40 / 43 / 60).",
         design_ref="3/C19",
         note="Trusted: zigpy.util.Requests shim (compat.py), simulated EZSP NCP, virtual-time loop. MAX_WATCHDOG_FAILURES and the clear period "
              "are read from the tree as configuration.",
@@ -260,7 +268,8 @@ CHECKS = {
              "then runs against the simulated NCP over the faulty line along TLC-simulated behaviours, every assignment of 5 line "
              "behaviours to the first 4 (quick) / 6 (thorough) serviced frames for windows 1..3, and long random fault runs with "
              "cancellations; TLC validates each run against Trace_AshLink (host steps vs AshHost, NCP steps vs AshNcp, FIFO line "
-             "consistency) with the delivery invariants evaluated on every state.",
+             "consistency) with the delivery invariants evaluated on every state."
+             " The line may also stall the copy of a duplicated frame on its own (hold / release: the copy arrives after up to HoldSpan later frames of its direction) - in the model (two configurations), the simulated behaviours, the fault policies and the random runs.",
         design_ref="3/C01",
         note="Trusted: simulated NCP (transcription of AshNcp.tla, each of its steps validated against that spec in the same traces), "
              "FIFO line with detectable corruption (real bit flips; the host's own CRC rejects them), virtual-time loop, ashref.py.",
